@@ -335,9 +335,15 @@ def _run_given(prop, sub, stratum, tier, seed, stats, open_known, frame, ftag):
     shrink_budget = int(
         os.environ.get("VERIF_SHRINK_BUDGET", "60" if tier == "quick" else "400")
     )
-    st = dict(best=None, best_fails=None, after=0)
+    st = dict(best=None, best_fails=None, after=0, calls=0)
 
     def body(case):
+        st["calls"] += 1
+        if st["calls"] == 1 and st["best"] is None:
+            # Hypothesis always starts the generate phase with the all-minimal ("zero") example,
+            # independently of the seed; it is skipped (max_examples is n + 1) so that small per-stratum
+            # budgets are spent on seed-dependent draws
+            return
         if st["best"] is not None and st["after"] >= shrink_budget:
             # shrink budget used up: only the recorded minimal case still fails
             if jdump(case) != jdump(st["best"]):
@@ -353,7 +359,7 @@ def _run_given(prop, sub, stratum, tier, seed, stats, open_known, frame, ftag):
 
     test = given(strat)(body)
     test = settings(
-        max_examples=n,
+        max_examples=n + 1,
         database=None,
         deadline=None,
         derandomize=False,
